@@ -11,6 +11,7 @@ import (
 
 	"github.com/smart-core-os/sc-api/go/traits"
 	"github.com/smart-core-os/sc-api/go/types"
+	"github.com/smart-core-os/sc-golang/pkg/masks"
 	"github.com/smart-core-os/sc-golang/pkg/resource"
 )
 
@@ -44,7 +45,7 @@ func (m *ModelServer) ListConsumables(_ context.Context, request *traits.ListCon
 	}
 	pageSize := capPageSize(int(request.GetPageSize()))
 
-	sortedItems := m.model.ListConsumables(resource.WithReadMask(request.ReadMask))
+	sortedItems := m.model.ListConsumables()
 	nextIndex := 0
 	if lastKey != "" {
 		nextIndex = sort.Search(len(sortedItems), func(i int) bool {
@@ -70,7 +71,14 @@ func (m *ModelServer) ListConsumables(_ context.Context, request *traits.ListCon
 	if err != nil {
 		return nil, err
 	}
-	result.Consumables = sortedItems[nextIndex:upperBound]
+	// the read mask is applied to the page only: the key that the page token and the search rely on has to be read from
+	// the complete items, otherwise a mask that leaves the key out yields the same token for ever
+	filter := masks.NewResponseFilter(masks.WithFieldMask(request.ReadMask))
+	page := sortedItems[nextIndex:upperBound]
+	result.Consumables = make([]*traits.Consumable, len(page))
+	for i, item := range page {
+		result.Consumables[i] = filter.FilterClone(item).(*traits.Consumable)
+	}
 	return result, nil
 }
 
@@ -125,7 +133,7 @@ func (m *ModelServer) ListInventory(_ context.Context, request *traits.ListInven
 	}
 	pageSize := capPageSize(int(request.GetPageSize()))
 
-	sortedItems := m.model.ListInventory(resource.WithReadMask(request.ReadMask))
+	sortedItems := m.model.ListInventory()
 	nextIndex := 0
 	if lastKey != "" {
 		nextIndex = sort.Search(len(sortedItems), func(i int) bool {
@@ -151,7 +159,14 @@ func (m *ModelServer) ListInventory(_ context.Context, request *traits.ListInven
 	if err != nil {
 		return nil, err
 	}
-	result.Inventory = sortedItems[nextIndex:upperBound]
+	// the read mask is applied to the page only: the key that the page token and the search rely on has to be read from
+	// the complete items, otherwise a mask that leaves the key out yields the same token for ever
+	filter := masks.NewResponseFilter(masks.WithFieldMask(request.ReadMask))
+	page := sortedItems[nextIndex:upperBound]
+	result.Inventory = make([]*traits.Consumable_Stock, len(page))
+	for i, item := range page {
+		result.Inventory[i] = filter.FilterClone(item).(*traits.Consumable_Stock)
+	}
 	return result, nil
 }
 
